@@ -147,7 +147,18 @@ func (defaultLocker *DefaultLocker) Lock(ctx context.Context, accounts Accounts)
 
 	select {
 	case <-ctx.Done():
-		defaultLocker.intents.RemoveValue(intent)
+		// recheck grants under the mutex: holding it, either the intent is still queued and can be
+		// withdrawn, or it has been granted in the meantime and the accounts must be given back,
+		// since the caller only gets an error and will never call the unlock function.
+		defaultLocker.mu.Lock()
+		select {
+		case <-intent.acquired:
+			intent.unlock(ctx, defaultLocker)
+			recheck()
+		default:
+			defaultLocker.intents.RemoveValue(intent)
+		}
+		defaultLocker.mu.Unlock()
 		return nil, errors.Wrapf(ctx.Err(), "locking accounts: %s as read, and %s as write", accounts.Read, accounts.Write)
 	case <-intent.acquired:
 		return releaseIntent, nil
